@@ -1486,6 +1486,9 @@ class Xsd11Group(XsdGroup):
             return True
 
     def is_choice_restriction(self, other: XsdGroup) -> bool:
+        if self.effective_min_occurs < other.effective_min_occurs:
+            return False
+
         restriction_items = [x for x in self.iter_model()]
         has_not_empty_item = any(e.max_occurs != 0 for e in restriction_items)
 
